@@ -40,6 +40,14 @@ type c01Case struct {
 	Dtype   string   `json:"dtype"`
 	Vals    []string `json:"vals"`
 	Strs    []string `json:"strs"`
+	// chunk index modes (c01index.go)
+	Dim     int           `json:"dim"`
+	Entries []c01IdxEntry `json:"entries"`
+	EOF     uint64        `json:"eof"`
+	File    string        `json:"file"`
+	Root    uint64        `json:"root"`
+	Osz     uint8         `json:"osz"`
+	NDims   int           `json:"ndims"`
 }
 
 type c01Chunk struct {
@@ -190,6 +198,10 @@ func init() {
 		switch c.Mode {
 		case "tile", "resize":
 			return c01Tile(&c)
+		case "index":
+			return c01Index(&c)
+		case "indexraw":
+			return c01IndexRaw(&c)
 		case "conv":
 			rawb, err := hex.DecodeString(c.Raw)
 			if err != nil {
